@@ -19,7 +19,13 @@ impl DrawTable {
 
     pub fn remove_board_from_draw_table(&mut self, board: &BoardState) {
         if let Some(&val) = self.table.get(&board.zobrist_key) {
-            self.table.insert(board.zobrist_key, val - 1);
+            if val <= 1 {
+                // forget the position altogether, otherwise every position the search ever
+                // visits stays in the table with a count of zero and the table grows without bound
+                self.table.remove(&board.zobrist_key);
+            } else {
+                self.table.insert(board.zobrist_key, val - 1);
+            }
         }
     }
 
